@@ -3,5 +3,9 @@ import ThriftVerif.Facts.ExpectSites
 #print axioms ThriftVerif.Properties.C10.sorted_iteration_order_irrelevant
 #print axioms ThriftVerif.Properties.C10.merge_conflict_order_irrelevant
 #print axioms ThriftVerif.Properties.C10.merge_result_order_irrelevant
+#print axioms ThriftVerif.Properties.C10.walk_order_irrelevant
+#print axioms ThriftVerif.Properties.C10.root_services_order_irrelevant
+#print axioms ThriftVerif.Properties.C10.natKeyOrder
+#print axioms ThriftVerif.Properties.C10.old_walk_order_dependent
 #print axioms ThriftVerif.Facts.ExpectSites.sites_classified
 #print axioms ThriftVerif.Facts.ExpectSites.walk_order_fixed
